@@ -36,6 +36,7 @@ type cookieCase struct {
 	Value core.B   `json:"value"`
 	Extra bool     `json:"other_cookies,omitempty"`
 	Attr  string   `json:"attributes,omitempty"`           // odd but harmless attributes on the judged cookie: domain-port | domain-scheme | path-semicolon | expires-1500 | partitioned-insecure | samesite-none. A bad attribute is the attribute's problem (net/http drops or cleans it); name=value still travels
+	Junk  string   `json:"malformed_neighbours,omitempty"` // the client's Cookie line also carries elements that are no cookies (written as given: before "|" in front, after it behind); the cookies next to them are as present as ever
 	Sib   []string `json:"related_cookie_names,omitempty"` // further cookies set in the same response, before (even index) or after (odd index) the judged one; their names are prefixes / extensions of the judged name. Every one of them is read back
 }
 
@@ -497,7 +498,25 @@ func judgeCookie(w *core.W, c *cookieCase) {
 		// a different cookie whose name differs only in letter case comes first: names are matched exactly
 		req.AddCookie(&http.Cookie{Name: upper, Value: "decoy"})
 	}
+	if c.Junk != "" {
+		// one Cookie line, written by hand: junk in front, the cookies, junk behind
+		var parts []string
+		for _, ck := range resp.Cookies() {
+			parts = append(parts, (&http.Cookie{Name: ck.Name, Value: ck.Value}).String())
+			sent++
+		}
+		front, behind, _ := strings.Cut(c.Junk, "|")
+		line := front + strings.Join(parts, "; ") + behind
+		if prev := req.Header.Get("Cookie"); prev != "" {
+			line = prev + "; " + line
+		}
+		req.Header.Set("Cookie", line)
+		w.Count("cookie-line-with-malformed-neighbours")
+	}
 	for _, ck := range resp.Cookies() {
+		if c.Junk != "" {
+			break
+		}
 		if len(c.Value)%2 == 1 {
 			// some clients send one Cookie header line per cookie
 			req.Header.Add("Cookie", (&http.Cookie{Name: ck.Name, Value: ck.Value}).String())
@@ -605,6 +624,9 @@ func runC18(r *core.Run) {
 		if rng.Intn(6) == 0 {
 			c.Attr = []string{"domain-port", "domain-scheme", "path-semicolon", "expires-1500", "partitioned-insecure", "samesite-none"}[rng.Intn(6)]
 		}
+		if rng.Intn(6) == 0 {
+			c.Junk = []string{"|;", "|; ", "; |", ";|;", "|; ;", "novalue; |", "bad name=1; |", "=x; |", "|; q=\"open", "|; =", "a b; |; c d", "\x01=1; |", "|;;;", " |  "}[rng.Intn(14)]
+		}
 		if rng.Intn(4) == 0 {
 			for k := 1 + rng.Intn(3); k > 0; k-- {
 				c.Sib = append(c.Sib, []string{c.Name + "_id", c.Name + "2", c.Name[:1], c.Name + c.Name, "x" + c.Name, c.Name + "-"}[rng.Intn(6)])
@@ -613,7 +635,7 @@ func runC18(r *core.Run) {
 		w.Begin("cookie", c)
 		judgeCookie(w, c)
 	})
-	for _, k := range []string{"class:absent", "class:empty", "class:well-formed-int", "class:well-formed-float", "class:well-formed-bool", "class:malformed", "class:out-of-range", "class:needs-escaping", "multi-valued", "form-body-parsed-before-reading", "cookie-class:empty", "cookie-class:plain", "cookie-class:separators", "cookie-class:non-ascii-or-control", "cookie-with-related-names", "cookie-absent-reads-of-related-names", "cookie-with-odd-attributes", "body-read:unknown", "body-read:exact", "body-read:none"} {
+	for _, k := range []string{"class:absent", "class:empty", "class:well-formed-int", "class:well-formed-float", "class:well-formed-bool", "class:malformed", "class:out-of-range", "class:needs-escaping", "multi-valued", "form-body-parsed-before-reading", "cookie-class:empty", "cookie-class:plain", "cookie-class:separators", "cookie-class:non-ascii-or-control", "cookie-with-related-names", "cookie-absent-reads-of-related-names", "cookie-line-with-malformed-neighbours", "cookie-with-odd-attributes", "body-read:unknown", "body-read:exact", "body-read:none"} {
 		r.GateCounter(k, 20)
 	}
 	r.GateCounter("cookie-single-bytes", 256)
